@@ -554,6 +554,9 @@ qb_vsnprintf_serialize(char *serialize, size_t max_len,
 	for (;;) {
 		type_long = QB_FALSE;
 		type_longlong = QB_FALSE;
+		/* the precision belongs to one conversion only */
+		sformat_length = 0;
+		sformat_precision = QB_FALSE;
 		p = strchrnul((const char *)format, '%');
 		if (*p == '\0') {
 			break;
@@ -714,6 +717,9 @@ reprocess:
 			{
 			char *arg_string;
 			arg_string = va_arg(ap, char *);
+			if (location >= max_len) {
+				return max_len;
+			}
 			if (arg_string == NULL) {
 				location += my_strlcpy(&serialize[location],
 						   "(null)",
@@ -744,12 +750,11 @@ reprocess:
 			break;
 			}
 		case '%':
-			if (location + 1 > max_len) {
-				return max_len;
-			}
-			serialize[location++] = '%';
-                        sformat_length = 0;
-                        sformat_precision = QB_FALSE;
+			/* "%%" is a literal: it takes no argument and has
+			 * no data (qb_vsnprintf_deserialize() reads none);
+			 * step over it so that the second '%' is not taken
+			 * for the start of a conversion */
+			format++;
 			break;
 
 		}
